@@ -34,6 +34,13 @@ Decided (design section 5, C08):
                                       batches, write_end flushes the pending batch)
  +   D1-dtor-swallows                ~Writer and the Compressor destructors run their close inside try { } catch (...) { }
 
+Shape independence: the rules follow code into private methods of the same class (a role is played by the call itself or
+by a helper whose body plays it on every path; a close() that only delegates is analysed in the delegate; the write(2) retry
+loop may live in a wrapper that passes pointer/count through), resolve single-definition named locals to their initialiser,
+fold `!` / early-return / if-else polarity of tests, and decide loops by walking them under an assumption (T3: "this chunk is
+not the end marker", E2: "write succeeded") instead of matching a loop form -- while(true)+break, for(;;), do/while with a
+flag, priming read + while all read the same.
+
 Not decided (moved to "not decided"): bytes on disk for every fault offset (needs fault injection); gzwrite/BZ2 partial-write
 semantics inside the libraries; that fclose/gzclose flush everything they buffered (library contract, assumed); thread
 interleavings of producer / pool / write thread (C19/C07 decide the monitor discipline); the strtol in PBFOutputFormat's
@@ -42,7 +49,8 @@ constructor (option parsing, belongs to C13); declaration order of Writer member
 from .. import errdisc as E
 from ..c08_util import (WRITER, WRITE_THREAD, COMPRESSOR, OUTPUT_FORMAT, is_exit, write_path_functions, in_io_layer,
                         scn, vars_in, catch_all_handler, nodes_in_handler, must_pass, must_pass_after, calls_reaching, cond_blocks,
-                        is_pointer_truth, reads_only_object_state, compares_with_const, guards)
+                        is_pointer_truth, reads_only_object_state, compares_with_const, guards, resolved, callees_deep, vars_in_deep,
+                        helper_bodies, role_ids, role_ids_may, work_functions, atom_guards, false_edge_of)
 from ..flow import path_search, describe_path
 
 # genuine findings on the pristine tree: (rule, key, explanation)
@@ -101,16 +109,111 @@ def _assigned_from(fn, call):
     return None
 
 
-def short_write(fb, R, fn, call, outcome):
+def _cmp_polarity(fn, c, A, S):
+    """comparison of the accumulator A with the size S: True = holds while incomplete (A < S), False = holds when complete."""
+    if c is None or c.get('k') != 'binop':
+        return None
+    l, r = scn(fn, c['lhs']), scn(fn, c['rhs'])
+    if l is None or r is None or l.get('k') != 'var' or r.get('k') != 'var':
+        return None
+    pair, op = (l.get('d'), r.get('d')), c.get('op')
+    if pair == (A, S):
+        return True if op in ('<', '!=') else False if op in ('>=', '==') else None
+    if pair == (S, A):
+        return True if op in ('>', '!=') else False if op in ('<=', '==') else None
+    return None
+
+
+def _loop_tests(fn, call, A, S):
+    """Blocks that test completion: [(block, index of the successor taken when complete, ids of the comparison nodes)].
+    The test is a comparison of A with S, or a boolean local (possibly negated) all of whose non-constant definitions are
+    such comparisons of one polarity and one of which is executed on every path from the call to the test (loop flag)."""
+    out = []
+    for b in cond_blocks(fn):
+        c = E.effective_cond(fn, b)
+        n = fn.sn(c)
+        flip = False
+        while n is not None and n.get('k') == 'unop' and n.get('op') == '!':
+            flip = not flip
+            n = fn.sn(n['sub'])
+        n = scn(fn, n['id']) if n is not None else None
+        pol = _cmp_polarity(fn, n, A, S)
+        cmps = [n['id']] if pol is not None else []
+        if pol is None and n is not None and n.get('k') == 'var' and n.get('vk') == 'local':
+            defs = []
+            for m in fn.all_nodes():
+                if m.get('k') == 'decl':
+                    defs += [(m['id'], v['init']) for v in m['vars'] if v['d'] == n['d'] and isinstance(v.get('init'), int)]
+                elif m.get('k') == 'assign' and E.carrier_of(fn, m['lhs']) == ('var', n['d']):
+                    defs.append((m['id'], m['rhs'] if m.get('op') == '=' else None))
+            pols = set()
+            live = []
+            for (did, rhs) in defs:
+                if rhs is not None and E.const_of(fn, rhs) is not None:
+                    continue
+                x = fn.sn(rhs) if rhs is not None else None
+                f2 = False
+                while x is not None and x.get('k') == 'unop' and x.get('op') == '!':
+                    f2 = not f2
+                    x = fn.sn(x['sub'])
+                x = scn(fn, x['id']) if x is not None else None
+                q = _cmp_polarity(fn, x, A, S)
+                pols.add(None if q is None else (q != f2))
+                live.append(did)
+                if q is not None:
+                    cmps.append(x['id'])
+            if len(pols) == 1 and None not in pols and live:
+                tests = {fn.strip(b['cond']), b['cond']}
+                if path_search(fn, call['id'], lambda e: e in tests, lambda e: e in live) is None:
+                    pol = next(iter(pols))
+        if pol is None:
+            continue
+        incomplete_when_true = (pol != flip)
+        out.append((b, 1 if incomplete_when_true else 0, cmps))
+    return out
+
+
+def _eintr_check(R, fn, call, outcome, key0, site, acc=()):
+    """EINTR: failure re-enters the call, accumulator untouched, the throw is guarded by an errno test against EINTR."""
+    eintr = False
+    for t in (outcome.throws if outcome is not None else ()):
+        for (c, sense, _b) in guards(fn, t):
+            x = fn.sn(c)
+            if x is not None and x.get('k') == 'binop' and x.get('op') in ('!=', '==') and E.const_of(fn, x['rhs']) == 4:
+                if any(fn.nodes[y].get('q') == '__errno_location' for y in fn.subtree(x['lhs'])):
+                    eintr = True
+    R.check(outcome is not None and outcome.retry and eintr and not (set(acc) & outcome.reached), 'E2-short-write-completed',
+            key0 + '#eintr-retries', site,
+            'an interrupted write() (EINTR) must re-enter the call without advancing the offset; other errors must throw')
+
+
+def short_write(fb, R, fn, call, outcome, ptr_idx=1, cnt_idx=2, eintr_done=False, depth=0):
+    """`call` is ::write itself, or (recursively) a call of a function that passes its pointer/count parameters straight to
+    the write primitive and returns its non-negative result (the retry loop extracted into a helper)."""
     rule = 'E2-short-write-completed'
     key0 = fn.q
     site = fn.loc(call['id'])
     args = call.get('args', [])
-    if len(args) < 3:
+    if len(args) <= max(ptr_idx, cnt_idx):
         R.broken('%s: write call with %d arguments' % (fn.q, len(args)))
         return
+    pidx = {p['d']: i for i, p in enumerate(fn.params)}
+    pn0, cn0 = scn(fn, args[ptr_idx]), scn(fn, args[cnt_idx])
+    L = _assigned_from(fn, call)
+    if depth < 3 and all(x is not None and x.get('k') == 'var' and x.get('vk') == 'param' and x.get('d') in pidx for x in (pn0, cn0)):
+        rets = [n for n in fn.all_nodes() if n.get('k') == 'return' and 'sub' in n]
+        hands_back = bool(rets) and all((scn(fn, r['sub']) or {}).get('id') == call['id'] or
+                                        (L is not None and (scn(fn, r['sub']) or {}).get('k') == 'var' and scn(fn, r['sub']).get('d') == L) for r in rets)
+        callers = E.callers_of(fb, fn) if hands_back else []
+        if callers:
+            if not eintr_done:
+                _eintr_check(R, fn, call, outcome, key0, site)
+            for (g, c) in callers:
+                short_write(fb, R, g, c, None, pidx[pn0['d']], pidx[cn0['d']], True, depth + 1)
+            return
+    subs = ['count-only-clamped', 'pointer-advanced', 'accumulates-result', 'loops-until-complete'] + ([] if eintr_done else ['eintr-retries'])
     # the count argument: W (local) initialised as S - A, or S - A directly; S parameter, A local accumulator
-    cn = scn(fn, args[2])
+    cn = scn(fn, args[cnt_idx])
     W = None
     diff = None
     if cn is not None and cn.get('k') == 'var' and cn.get('vk') == 'local':
@@ -130,7 +233,7 @@ def short_write(fb, R, fn, call, outcome):
     if not R.check(S is not None, rule, key0 + '#count-is-remaining', site,
                    'the byte count passed to write() is not derived from <size parameter> - <accumulated offset> (a short write would '
                    'be followed by a write past the end of the buffer or by lost data)'):
-        for sub in ('count-only-clamped', 'pointer-advanced', 'accumulates-result', 'loops-until-complete', 'eintr-retries'):
+        for sub in subs:
             R.bad(rule, '%s#%s' % (key0, sub), site, 'not decidable: no accumulated offset identified (see #count-is-remaining)')
         return
     bad = None
@@ -142,67 +245,62 @@ def short_write(fb, R, fn, call, outcome):
     R.check(bad is None, rule, key0 + '#count-only-clamped', site if bad is None else fn.loc(bad['id']),
             'the remaining-byte count is modified by something other than a clamp to a constant')
     # pointer argument: <pointer parameter> + A
-    pv = vars_in(fn, args[1])
+    pv = vars_in_deep(fn, args[ptr_idx])
     ptr_params = {p['d'] for p in fn.params if p['tC'].rstrip().endswith('*')}
-    pn = scn(fn, args[1])
+    pn = resolved(fn, args[ptr_idx])
     R.check(A in pv and bool(pv & ptr_params) and pn is not None and pn.get('k') == 'binop' and pn.get('op') == '+',
             rule, key0 + '#pointer-advanced', site,
             'the buffer pointer passed to write() is not <buffer parameter> + <accumulated offset> (after a short write the same bytes '
             'would be written again)')
     # accumulator advanced by the result
-    L = _assigned_from(fn, call)
     acc = []
     for n in fn.all_nodes():
-        if n.get('k') == 'assign' and n.get('op') == '+=' and E.carrier_of(fn, n['lhs']) == ('var', A):
-            r = scn(fn, n['rhs'])
-            if L is not None and r is not None and r.get('k') == 'var' and r.get('d') == L:
+        if n.get('k') == 'assign' and E.carrier_of(fn, n['lhs']) == ('var', A):
+            r = None
+            if n.get('op') == '+=':
+                r = scn(fn, n['rhs'])
+            elif n.get('op') == '=':       # A = A + result
+                x = scn(fn, n['rhs'])
+                if x is not None and x.get('k') == 'binop' and x.get('op') == '+':
+                    a1, a2 = scn(fn, x['lhs']), scn(fn, x['rhs'])
+                    if a1 is not None and a1.get('k') == 'var' and a1.get('d') == A:
+                        r = a2
+                    elif a2 is not None and a2.get('k') == 'var' and a2.get('d') == A:
+                        r = a1
+            if r is None:
+                continue
+            if L is not None and r.get('k') == 'var' and r.get('d') == L:
                 acc.append(n['id'])
-            elif r is not None and r.get('id') == call['id']:
+            elif r.get('id') == call['id']:
                 acc.append(n['id'])
-    # outer loop condition: comparison of A with S
-    loop_blocks = []
-    for b in cond_blocks(fn):
-        c = fn.sn(E.effective_cond(fn, b))
-        if c is None or c.get('k') != 'binop' or c.get('op') not in ('<', '!=', '>'):
-            continue
-        l, r = scn(fn, c['lhs']), scn(fn, c['rhs'])
-        if l is None or r is None or l.get('k') != 'var' or r.get('k') != 'var':
-            continue
-        if c['op'] in ('<', '!=') and (l.get('d'), r.get('d')) == (A, S) or c['op'] in ('>', '!=') and (l.get('d'), r.get('d')) == (S, A):
-            loop_blocks.append(b)
+    tests_b = _loop_tests(fn, call, A, S)
     ok = bool(acc)
     w = None
     if ok:
         # assuming the call succeeded (result >= 0): every path reaches the accumulation before the loop test / the exit
-        tests = {fn.strip(b['cond']) for b in loop_blocks} | {b['cond'] for b in loop_blocks}
+        tests = set()
+        for (b, _ci, cmps) in tests_b:
+            tests |= {fn.strip(b['cond']), b['cond']} | set(cmps)
         o = E.outcome_assuming(fb, fn, call, E.ge(0), stop_at=acc)
         ok = not o.exits and not (tests & o.reached) and not o.retry and not o.truncated
         w = o.exits[0] if o.exits else None
     R.check(ok, rule, key0 + '#accumulates-result', site,
             'the accumulated offset is not advanced by the result of write() on every path to the loop test: %s' % describe_path(fn, w))
-    ok = bool(loop_blocks)
+    ok = bool(tests_b)
     w = None
     if ok:
-        lb = {b['id'] for b in loop_blocks}
-        # the function is left only through the false edge of the loop test ...
-        w = must_pass_after(fn, call['id'], [], edge_ok=lambda b, idx, s: not (b in lb and idx == 1))
-        # ... and its true edge leads back to the call
-        back = all(path_search(fn, b['succs'][0], lambda e: e == call['id'], lambda e: False, from_block_start=True) is not None
-                   for b in loop_blocks if b['succs'][0] is not None)
+        done_edge = {b['id']: ci for (b, ci, _c) in tests_b}
+        # the function is left only through the "complete" edge of the loop test ...
+        w = must_pass_after(fn, call['id'], [], edge_ok=lambda b, idx, s: not (b in done_edge and idx == done_edge[b]))
+        # ... and its other edge leads back to the call
+        back = all(path_search(fn, b['succs'][1 - ci], lambda e: e == call['id'], lambda e: False, from_block_start=True) is not None
+                   for (b, ci, _c) in tests_b if b['succs'][1 - ci] is not None)
         ok = w is None and back
     R.check(ok, rule, key0 + '#loops-until-complete', site,
             'write() is not repeated until the accumulated offset reaches the requested size (a short write would be reported as success): %s'
             % describe_path(fn, w))
-    # EINTR: failure re-enters the call, accumulator untouched, the throw is guarded by an errno test against EINTR
-    eintr = False
-    for t in (outcome.throws if outcome is not None else ()):
-        for (c, sense, _b) in guards(fn, t):
-            x = fn.sn(c)
-            if x is not None and x.get('k') == 'binop' and x.get('op') in ('!=', '==') and E.const_of(fn, x['rhs']) == 4:
-                if any(fn.nodes[y].get('q') == '__errno_location' for y in fn.subtree(x['lhs'])):
-                    eintr = True
-    R.check(outcome is not None and outcome.retry and eintr and not (set(acc) & outcome.reached), rule, key0 + '#eintr-retries', site,
-            'an interrupted write() (EINTR) must re-enter the call without advancing the offset; other errors must throw')
+    if not eintr_done:
+        _eintr_check(R, fn, call, outcome, key0, site, acc)
 
 
 # ------------------------------------------------------------------------------------------------ 2  close completeness
@@ -220,27 +318,40 @@ def close_rules(fb, R):
             _close_one(fb, R, rec, fn)
 
 
-def _close_one(fb, R, rec, fn):
-    key = fn.q
-    layer = [n for n in fn.all_nodes() if E.is_extern_c(n) and E.classify(n['q'])[0] == 'check']
+def _is_layer_call(n):
+    return E.is_extern_c(n) and E.classify(n['q'])[0] == 'check' and n['q'] not in ('close', 'fclose', 'fsync', 'fdatasync')
+
+
+def _close_one(fb, R, rec, fn, key=None, depth=0):
+    key = key or fn.q
     fsyncs = calls_reaching(fb, fn, ('fsync', 'fdatasync', '_commit'))
     dcloses = calls_reaching(fb, fn, ('close', 'fclose'))
+    # close() that only delegates to one private method doing all the work: analyse that method
+    own = [n for n in dcloses if helper_bodies(fb, fn, n)]
+    if depth < 2 and dcloses and len(own) == len(dcloses) == 1 and not any(_is_layer_call(n) for n in fn.all_nodes()):
+        g = helper_bodies(fb, fn, own[0])[0]
+        if calls_reaching(fb, g, ('close', 'fclose')):
+            _close_one(fb, R, rec, g, key, depth + 1)
+            return
+    # the compression layer close: the library call itself, or the private method it was extracted into
+    layer = [n for n in fn.all_nodes() if _is_layer_call(n)]
+    layer += [n for n in fn.all_nodes() if n['id'] not in {x['id'] for x in fsyncs + dcloses}
+              and any(any(_is_layer_call(m) for m in h.all_nodes()) for g in helper_bodies(fb, fn, n) for h in work_functions(fb, g, 2))]
     dclose_ids = {n['id'] for n in dcloses}
     fsync_ids = {n['id'] for n in fsyncs}
 
     def is_dofsync(cond):
-        c = fn.sn(cond)
+        c = resolved(fn, cond)
         return c is not None and c.get('k') == 'call' and c.get('q') == COMPRESSOR + '::do_fsync'
 
     # C1
-    guarded = [n for n in fsyncs if any(sense and is_dofsync(c) for (c, sense, _b) in guards(fn, n['id']))
+    guarded = [n for n in fsyncs if any(sense and is_dofsync(c) for (c, sense, _b) in atom_guards(fn, n['id']))
                or not guards(fn, n['id'])]
     ok = bool(guarded) and bool(dcloses)
     w = None
     if ok:
         def edge_ok(b, idx, s):
-            c = E.effective_cond(fn, fn.blocks[b])
-            if idx == 1 and (is_dofsync(c) or is_pointer_truth(fn, c)):
+            if idx == false_edge_of(fn, fn.blocks[b], lambda c: is_dofsync(c) or is_pointer_truth(fn, c)):
                 return False   # fsync not requested / no handle to sync
             return True
         w = path_search(fn, fn.entry, lambda e: e in dclose_ids, lambda e: e in fsync_ids, edge_ok, from_block_start=True)
@@ -251,12 +362,13 @@ def _close_one(fb, R, rec, fn):
     # C2
     # "already closed" = the state close() itself establishes (m_fd = -1, m_gzfile = nullptr ...)
     closed_env = {}
-    for n in fn.all_nodes():
-        if n.get('k') == 'assign' and n.get('op') == '=':
-            c = E.carrier_of(fn, n['lhs'])
-            v = E.const_of(fn, n['rhs'])
-            if c is not None and c[0] == 'field' and v is not None:
-                closed_env[c] = E.fin(v)
+    for g in work_functions(fb, fn, 2):
+        for n in g.all_nodes():
+            if n.get('k') == 'assign' and n.get('op') == '=':
+                c = E.carrier_of(g, n['lhs'])
+                v = E.const_of(g, n['rhs'])
+                if c is not None and c[0] == 'field' and v is not None:
+                    closed_env[c] = E.fin(v)
 
     def edge_ok2(b, idx, s):
         blk = fn.blocks[b]
@@ -294,37 +406,26 @@ def _close_one(fb, R, rec, fn):
         return
     assigns = [n for n in fn.all_nodes() if n.get('k') == 'assign' and E.carrier_of(fn, n['lhs']) == ('field', field)]
     if not assigns:
-        R.broken('%s: close() never assigns %s' % (rec.q, field))
+        if not any(E.carrier_of(g, n['lhs']) == ('field', field) for n0 in fn.all_nodes() for g0 in helper_bodies(fb, fn, n0)
+                   for g in work_functions(fb, g0, 2) for n in g.all_nodes() if n.get('k') == 'assign'):
+            R.broken('%s: close() never assigns %s' % (rec.q, field))
+        else:   # assignment lives in a helper called from here: it must be called after the layer close
+            for l in layer:
+                hs = [n0 for n0 in fn.all_nodes() for g0 in helper_bodies(fb, fn, n0) for g in work_functions(fb, g0, 2)
+                      if any(n.get('k') == 'assign' and E.carrier_of(g, n['lhs']) == ('field', field) for n in g.all_nodes())]
+                R.check(all(h['id'] == l['id'] or fn.elem_dominates(l['id'], h['id']) for h in hs), 'C4-file-size-after-layer-close',
+                        '%s#%s' % (key, field.rsplit('::', 1)[-1]), fn.site, 'close(): %s is assigned before %s succeeded' % (field, l['q']))
         return
     for l in layer:
-        o, _p = E.fail_outcome(fb, fn, l, E.CONVENTIONS[l['q']])
+        # a layer close extracted into a helper reports failure by throwing (rule E1 inside it): dominance is enough
+        o = E.fail_outcome(fb, fn, l, E.CONVENTIONS[l['q']])[0] if l['q'] in E.CONVENTIONS else None
         for a in assigns:
-            ok = fn.elem_dominates(l['id'], a['id']) and o is not None and a['id'] not in o.reached
+            ok = fn.elem_dominates(l['id'], a['id']) and (l['q'] not in E.CONVENTIONS or (o is not None and a['id'] not in o.reached))
             R.check(ok, 'C4-file-size-after-layer-close', '%s#%s' % (key, field.rsplit('::', 1)[-1]), fn.loc(a['id']),
                     'close(): %s is assigned before %s succeeded (or on its failure path)' % (field, l['q']))
 
 
-def _role_ids(fb, fn, nodes, pred, depth=1):
-    """ids of `nodes` (of fn) that play a role: pred(fn, node) holds, or the node calls a method of the same class whose
-    body performs the role on every path (handler body extracted into a helper)."""
-    ids = [n['id'] for n in nodes if pred(fn, n)]
-    if depth > 0:
-        for n in nodes:
-            if n.get('k') == 'call' and 'u' in n and n.get('rcls') and n.get('rcls') == _class_of(fb, fn):
-                for g in fb.by_usr.get(n['u'], [])[:1]:
-                    inner = _role_ids(fb, g, list(g.all_nodes()), pred, depth - 1)
-                    if inner and g.has_cfg and must_pass(g, g.entry, inner) is None:
-                        ids.append(n['id'])
-    return ids
-
-
-def _class_of(fb, fn):
-    """class a function body belongs to (for a lambda: the class of the enclosing method)."""
-    hops = 0
-    while fn is not None and fn.is_lambda and hops < 5:
-        fn = fb.by_id.get((fn.unit, fn.outer))
-        hops += 1
-    return fn.cls if fn is not None else None
+_role_ids = role_ids
 
 
 def _role_order(fb, fn, pred_a, pred_b, nodes):
@@ -346,6 +447,14 @@ def _role_order(fb, fn, pred_a, pred_b, nodes):
 
 # ------------------------------------------------------------------------------------------------ 3  write thread
 
+def _p_pop(f, n):
+    return n.get('k') == 'call' and n.get('q', '').rsplit('::', 1)[-1] == 'pop' and n.get('rcls') == 'osmium::io::detail::queue_wrapper'
+
+
+def _p_q(q):
+    return lambda f, n: n.get('k') == 'call' and n.get('q') == q
+
+
 def write_thread_rules(fb, R):
     fns = fb.fns(WRITE_THREAD + '::operator()')
     if not fns:
@@ -353,52 +462,53 @@ def write_thread_rules(fb, R):
         return
     for fn in fns:
         key = fn.q
-        pops = [n for n in fn.calls(name='pop') if n.get('rcls') == 'osmium::io::detail::queue_wrapper']
-        writes = list(fn.calls(COMPRESSOR + '::write'))
-        closes = list(fn.calls(COMPRESSOR + '::close'))
-        setvals = list(fn.calls('std::promise::set_value'))
-        if len(pops) != 1 or len(writes) > 1 or len(closes) > 1 or len(setvals) > 1:
-            R.broken('WriteThread::operator(): expected one pop and at most one write / close / set_value, found %d/%d/%d/%d'
-                     % (len(pops), len(writes), len(closes), len(setvals)))
+        nodes0 = list(fn.all_nodes())
+        # each role is played in operator() by the call itself or by a call of a private method that contains it
+        roles = {'pop': role_ids_may(fb, fn, nodes0, _p_pop), 'write': role_ids_may(fb, fn, nodes0, _p_q(COMPRESSOR + '::write')),
+                 'close': role_ids_may(fb, fn, nodes0, _p_q(COMPRESSOR + '::close')),
+                 'set_value': role_ids_may(fb, fn, nodes0, _p_q('std::promise::set_value'))}
+        if not roles['pop']:
+            R.broken('WriteThread::operator(): no pop from the input queue found')
             return
-        P = pops[0]
-        W = writes[0] if writes else None
-        C = closes[0] if closes else None
-        S = setvals[0] if setvals else None
         # T1
         hs = {}
-        for role, n in (('pop', P), ('write', W), ('close', C), ('set_value', S)):
-            if n is None:
+        for role, ids in roles.items():
+            if not ids:
                 R.bad('T1-write-thread-try-covers-work', '%s#%s' % (key, role), fn.site, 'WriteThread::operator() has no %s call' % role)
                 continue
-            h = catch_all_handler(fn, n['id'])
-            hs[role] = h
-            R.check(h is not None, 'T1-write-thread-try-covers-work', '%s#%s' % (key, role), fn.loc(n['id']),
-                    'WriteThread: %s is not inside a try with catch (...): an exception would terminate the process / be lost' % n['q'])
-        same = len(hs) == 4 and all(h is not None for h in hs.values()) and len({h[0]['b'] for h in hs.values()}) == 1
+            cov = [catch_all_handler(fn, i) for i in ids]
+            hs[role] = cov
+            R.check(all(h is not None for h in cov), 'T1-write-thread-try-covers-work', '%s#%s' % (key, role), fn.loc(ids[0]),
+                    'WriteThread: %s is not inside a try with catch (...): an exception would terminate the process / be lost' % role)
+        allh = [h for cov in hs.values() for h in cov]
+        same = len(hs) == 4 and all(h is not None for h in allh) and len({h[0]['b'] for h in allh}) == 1
         R.check(same, 'T1-write-thread-try-covers-work', key + '#one-try', fn.site, 'pop/write/close/set_value must share one try block')
-        h3 = hs.get('pop') or next((h for h in hs.values() if h is not None), None)
+        h3 = next((h for h in hs.get('pop', []) if h is not None), None) or next((h for h in allh if h is not None), None)
         if h3 is None or h3[2] is None:
             for role in ('flag', 'set_exception', 'shutdown'):
                 R.bad('T2-write-thread-handler-forwards', '%s#%s' % (key, role), fn.site, 'WriteThread has no catch (...) around its work')
         else:
-            _write_thread_handler(fb, R, fn, key, h3, P, S)
-        _write_thread_loop(R, fn, key, P, W, C, S)
+            _write_thread_handler(fb, R, fn, key, h3)
+        _write_thread_loop(fb, R, fn, key, roles)
 
 
-def _write_thread_handler(fb, R, fn, key, h3, P, S):
+def _write_thread_handler(fb, R, fn, key, h3):
     t, h, hb = h3
     # T2
     hn = nodes_in_handler(fn, h)
-    promise = fn.root_var(S['recv']) if S is not None else None
-    queue = fn.root_var(P['recv'])
+    rec = fb.record(WRITE_THREAD)
+    promise = {f['q'] for f in rec.fields if f['tC'].startswith('std::promise<')} if rec else set()
+    queue = {f['q'] for f in rec.fields if 'queue_wrapper<' in f['tC'] or f['tC'].startswith('osmium::thread::Queue<')} if rec else set()
+
+    def field_of(f, x):
+        rv = f.root_var(x) if x is not None else None
+        return rv[1] if rv and rv[0] == 'field' else None
     flag = _role_ids(fb, fn, hn, lambda f, n: n.get('k') == 'call' and n.get('rclsT', '').startswith('std::atomic<bool>')
                      and n['q'].rsplit('::', 1)[-1] in ('store', 'operator=') and n.get('args') and f.const_value(n['args'][0]) == 1)
     setex = _role_ids(fb, fn, hn, lambda f, n: n.get('k') == 'call' and n.get('q') == 'std::promise::set_exception'
-                      and any(f.nodes[x].get('q') == 'std::current_exception' for x in f.subtree(n['id']))
-                      and (promise is None or f.root_var(n['recv']) == promise))
+                      and 'std::current_exception' in callees_deep(f, n['id']) and field_of(f, n.get('recv')) in promise)
     shut = _role_ids(fb, fn, hn, lambda f, n: n.get('k') == 'call' and n.get('q', '').rsplit('::', 1)[-1] == 'shutdown'
-                     and f.root_var(n.get('recv')) == queue)
+                     and field_of(f, n.get('recv')) in queue)
     for role, ids, why in (('flag', flag, 'set the notification flag (the Writer polls the future only when it is set)'),
                            ('set_exception', setex, 'store current_exception() in the promise (otherwise close() reports success)'),
                            ('shutdown', shut, 'shut the input queue down (otherwise a producer blocked on the full queue never returns)')):
@@ -407,47 +517,91 @@ def _write_thread_handler(fb, R, fn, key, h3, P, S):
                 'WriteThread catch (...) must %s on every path' % why)
 
 
-def _write_thread_loop(R, fn, key, P, W, C, S):
-    if W is None:
-        R.bad('T3-write-thread-loop', key + '#every-chunk-written', fn.site, 'WriteThread never calls Compressor::write')
-    if C is None or S is None:
-        R.bad('T3-write-thread-loop', key + '#close-then-value', fn.site,
-              'WriteThread does not close the compressor / fulfil the promise: buffered data is never flushed, close errors are never seen')
-    if W is None:
+def _write_thread_loop(fb, R, fn0, key, roles):
+    rule = 'T3-write-thread-loop'
+    # ---- every chunk: decided in the function that contains the pop (operator() or the private method holding the loop)
+    loopfns = [(g, [n for n in g.all_nodes() if _p_pop(g, n)]) for g in work_functions(fb, fn0)]
+    loopfns = [(g, ps) for (g, ps) in loopfns if ps]
+    if len(loopfns) != 1:
+        R.broken('WriteThread: pops from the input queue found in %d functions, expected one' % len(loopfns))
         return
-    # T3
-    datavar = None
-    for n in fn.all_nodes():
+    g, pops = loopfns[0]
+    gn = list(g.all_nodes())
+    popids = {P['id'] for P in pops}
+    # the variable(s) holding the popped chunk (one pop per iteration, or a priming pop plus one at the end of the body)
+    datavars = set()
+    for n in gn:
         if n.get('k') == 'decl':
-            for v in n['vars']:
-                if isinstance(v.get('init'), int) and P['id'] in fn.subtree(v['init']):
-                    datavar = v['d']
-    warg = scn(fn, W['args'][0]) if W.get('args') else None
-    ok = datavar is not None and warg is not None and warg.get('k') == 'var' and warg.get('d') == datavar
+            datavars |= {v['d'] for v in n['vars'] if isinstance(v.get('init'), int) and popids & set(g.subtree(v['init']))}
+        elif n.get('k') == 'assign' and n.get('op') == '=' and popids & set(g.subtree(n['rhs'])):
+            c = E.carrier_of(g, n['lhs'])
+            if c and c[0] == 'var':
+                datavars.add(c[1])
+        elif n.get('k') == 'call' and n.get('op') == '=' and n.get('args') and popids & set(g.subtree(n['id'])):
+            rv = g.root_var(n.get('recv')) if n.get('recv') is not None else (g.root_var(n['args'][0]) if n.get('args') else None)
+            if rv and rv[0] == 'var':
+                datavars.add(rv[1])
+    datavar = next(iter(datavars)) if len(datavars) == 1 else None
 
-    def edge_ok(b, idx, s):
-        c = fn.sn(E.effective_cond(fn, fn.blocks[b]))
-        end_idx = 0
-        while c is not None and c.get('k') == 'unop' and c.get('op') == '!':
-            c = fn.sn(c['sub'])
-            end_idx = 1 - end_idx
-        if idx == end_idx and c is not None and c.get('k') == 'call' and c.get('q') == 'osmium::io::detail::at_end_of_data':
-            a = scn(fn, c['args'][0]) if c.get('args') else None
-            if a is not None and a.get('k') == 'var' and a.get('d') == datavar:
-                return False
-        return True
-    w = must_pass_after(fn, P['id'], [W['id']], edge_ok, targets=[P['id']])
-    R.check(ok and w is None, 'T3-write-thread-loop', key + '#every-chunk-written', fn.loc(W['id']),
-            'a chunk popped from the queue that is not the end-of-data marker is not handed to Compressor::write (or the loop '
-            'is left before end-of-data): %s' % describe_path(fn, w))
-    if C is None or S is None:
+    def is_data(x):
+        r = scn(g, x) if x is not None else None
+        return r is not None and r.get('k') == 'var' and r.get('d') == datavar
+    # the chunk is handed to Compressor::write (directly or through a private method that always writes its argument)
+    W = [i for i in _role_ids(fb, g, gn, _p_q(COMPRESSOR + '::write')) if any(is_data(a) for a in g.nodes[i].get('args', []) or [])]
+    # end-of-data tests on the chunk
+    ends = [n['id'] for n in gn if n.get('k') == 'call' and (
+        (n.get('q') == 'osmium::io::detail::at_end_of_data' and n.get('args') and is_data(n['args'][0]))
+        or (n.get('q') == 'std::basic_string::empty' and is_data(n.get('recv'))))]
+    pos = g.positions()
+    ok = datavar is not None and bool(W) and bool(ends) and all(i in pos for i in popids)
+    why = ''
+    if datavar is None:
+        why = 'cannot identify the variable that receives the popped chunk'
+    elif not W:
+        why = 'the popped chunk is never handed to Compressor::write'
+    elif not ends:
+        why = 'no end-of-data test on the popped chunk'
+    if ok:
+        # assume the chunk is NOT the end-of-data marker: every path from a pop reaches the write (never the next pop, never
+        # the code after the loop), and after the write the next thing is a pop again
+        env = {('node', e): E.fin(0) for e in ends}
+        for P in pops:
+            b, i = pos[P['id']]
+            o1 = E.explore(g, (b, i + 1), env, site=popids, fb=fb, stop_at=set(W))
+            if o1.exits or o1.retry or o1.truncated or o1.throws or not o1.stopped:
+                ok = False
+                why = 'a chunk that is not the end-of-data marker can skip Compressor::write: %s' % E.describe(g, o1.exits[0] if o1.exits else [])
+            for wid, arrivals in o1.stopped.items():
+                wb, wi = pos[wid]
+                for (env2, facts2) in arrivals:
+                    o2 = E.explore(g, (wb, wi + 1), env2, site=popids, fb=fb, facts=facts2)
+                    if o2.exits or o2.truncated or not o2.retry:
+                        ok = False
+                        why = 'after writing a chunk that is not the end-of-data marker the loop is left: %s' % E.describe(g, o2.exits[0] if o2.exits else [])
+    P = pops[0]
+    R.check(ok, rule, key + '#every-chunk-written', g.loc(P['id']),
+            'a chunk popped from the queue that is not the end-of-data marker must be handed to Compressor::write and the loop must go on: %s' % why)
+    # ---- after the loop: close, then set_value(file_size())
+    C, S, Wr, Pp = roles['close'], roles['set_value'], roles['write'], roles['pop']
+    if not C or not S:
+        R.bad(rule, key + '#close-then-value', fn0.site,
+              'WriteThread does not close the compressor / fulfil the promise: buffered data is never flushed, close errors are never seen')
         return
-    w = must_pass(fn, fn.entry, [C['id']])
-    sarg = scn(fn, S['args'][0]) if S.get('args') else None
-    ok = (w is None and fn.elem_dominates(C['id'], S['id']) and sarg is not None and sarg.get('q') == COMPRESSOR + '::file_size'
-          and path_search(fn, C['id'], lambda e: e == W['id'], lambda e: False) is None
-          and must_pass_after(fn, C['id'], [S['id']]) is None)
-    R.check(ok, 'T3-write-thread-loop', key + '#close-then-value', fn.loc(C['id']),
+    ok = must_pass(fn0, fn0.entry, C) is None
+    ok = ok and all(any(c != s and fn0.elem_dominates(c, s) for c in C) or s in C for s in S)
+    ok = ok and all(path_search(fn0, c, lambda e: e in Wr or e in Pp, lambda e: False) is None for c in C if c not in Wr and c not in Pp)
+    ok = ok and all(must_pass_after(fn0, c, S) is None for c in C if c not in S)
+    for wf in work_functions(fb, fn0):
+        for n in wf.all_nodes():
+            if n.get('k') == 'call' and n.get('q') == 'std::promise::set_value':
+                v = resolved(wf, n['args'][0]) if n.get('args') else None
+                if v is None or v.get('q') != COMPRESSOR + '::file_size':
+                    ok = False
+                else:   # the size is read after the close
+                    cl = [m['id'] for m in wf.all_nodes() if m.get('k') == 'call' and m.get('q') == COMPRESSOR + '::close']
+                    if cl and not any(wf.elem_dominates(c, v['id']) for c in cl):
+                        ok = False
+    R.check(ok, rule, key + '#close-then-value', fn0.loc(C[0]),
             'after the loop the compressor must be closed and then the promise fulfilled with file_size() on every path')
 
 
@@ -544,6 +698,14 @@ def writer_rules(fb, R):
             refuses = must_pass(fn, b['succs'][idx], []) is None   # every path from the not-okay edge throws
             if dominates and refuses:
                 ok = True
+        if not ok:   # the test extracted into a private method that throws unless the status is okay
+            for n in fn.all_nodes():
+                for g in helper_bodies(fb, fn, n):
+                    for b in cond_blocks(g):
+                        idx = _is_status_cmp(g, E.effective_cond(g, b), status_q)
+                        if idx is not None and b['succs'][idx] is not None and must_pass(g, b['succs'][idx], []) is None \
+                                and b['id'] in g.dominators().get(g.exit, ()) and fn.elem_dominates(n['id'], I['id']):
+                            ok = True
         R.check(ok, 'G2-ensure-cleanup-shape', key + '#status-first', fn.site,
                 'ensure_cleanup must refuse (throw) when m_status != okay before running the operation')
         h = catch_all_handler(fn, I['id'])
@@ -555,7 +717,7 @@ def writer_rules(fb, R):
         p_st = lambda f, n: (n.get('k') == 'assign' and n.get('op') == '=' and E.carrier_of(f, n['lhs']) == ('field', status_q)
                              and (f.sn(n['rhs']) or {}).get('q', '').endswith('::error'))
         p_exq = lambda f, n: (n.get('k') == 'call' and n.get('q') == 'osmium::io::detail::add_to_queue'
-                              and any(f.nodes[x].get('q') == 'std::current_exception' for x in f.subtree(n['id'])))
+                              and 'std::current_exception' in callees_deep(f, n['id']))
         p_eod = lambda f, n: n.get('k') == 'call' and n.get('q') == 'osmium::io::detail::add_end_of_data_to_queue'
         st = _role_ids(fb, fn, hn, p_st)
         exq = _role_ids(fb, fn, hn, p_exq)
@@ -575,32 +737,40 @@ def writer_rules(fb, R):
                 'the exception must be queued before the end-of-data marker (the write thread stops reading at the marker)')
 
     # ---- G3
+    fut_fields = {f['q'] for f in rec.fields if f['tC'].startswith('std::future<')}
+
+    def p_get(f, n):
+        rv = f.root_var(n.get('recv')) if n.get('k') == 'call' and n.get('q') == 'std::future::get' else None
+        return rv is not None and rv[0] == 'field' and rv[1] in fut_fields
+
+    def is_valid(f, c):
+        x = resolved(f, c)
+        rv = f.root_var(x.get('recv')) if x is not None and x.get('k') == 'call' and x.get('q', '').rsplit('::', 1)[-1] == 'valid' else None
+        return rv is not None and rv[0] == 'field' and rv[1] in fut_fields
+
+    def not_valid_edge(f):
+        return lambda b, idx, s: idx != false_edge_of(f, f.blocks[b], lambda c: is_valid(f, c))
     for fn in fb.fns(WRITER + '::close'):
         key = fn.q
-        dc = list(fn.calls(WRITER + '::do_close'))
-        gets = [n for n in fn.calls('std::future::get') if fn.root_var(n.get('recv')) is not None and fn.root_var(n['recv'])[0] == 'field']
-        ok = len(dc) >= 1 and len(gets) == 1
+        nodes = list(fn.all_nodes())
+        dc = role_ids(fb, fn, nodes, lambda f, n: n.get('k') == 'call' and n.get('q') == WRITER + '::do_close')
+        gets = role_ids(fb, fn, nodes, p_get, edge_ok=not_valid_edge)
+        ok = bool(dc) and bool(gets)
         w = None
         if ok:
-            G = gets[0]
-            fld = fn.root_var(G['recv'])
-
-            def is_valid(c):
-                x = fn.sn(c)
-                return x is not None and x.get('k') == 'call' and x['q'].rsplit('::', 1)[-1] == 'valid' and fn.root_var(x.get('recv')) == fld
-            ok = any(fn.elem_dominates(d['id'], G['id']) for d in dc)
-            ok = ok and all(sense and is_valid(c) for (c, sense, _b) in guards(fn, G['id']))
-            w = must_pass(fn, fn.entry, [G['id']], lambda b, idx, s: not (idx == 1 and is_valid(E.effective_cond(fn, fn.blocks[b]))))
+            ok = all(any(fn.elem_dominates(d, G) for d in dc) for G in gets)
+            ok = ok and all(sense and is_valid(fn, c) for G in gets for (c, sense, _b) in atom_guards(fn, G))
+            w = must_pass(fn, fn.entry, gets, not_valid_edge(fn))
             ok = ok and w is None
             # the value of get() is what close() returns on that path
-            holders = {v['d'] for n in fn.all_nodes() if n.get('k') == 'decl' for v in n['vars']
-                       if isinstance(v.get('init'), int) and G['id'] in fn.subtree(v['init'])}
-            holders |= {E.carrier_of(fn, n['lhs'])[1] for n in fn.all_nodes() if n.get('k') == 'assign' and n.get('op') == '='
-                        and G['id'] in fn.subtree(n['rhs']) and (E.carrier_of(fn, n['lhs']) or ('',))[0] == 'var'}
-            rets = [n for n in fn.all_nodes() if n.get('k') == 'return' and 'sub' in n
-                    and (G['id'] in fn.subtree(n['sub']) or ((scn(fn, n['sub']) or {}).get('k') == 'var' and scn(fn, n['sub']).get('d') in holders))]
+            holders = {v['d'] for n in nodes if n.get('k') == 'decl' for v in n['vars']
+                       if isinstance(v.get('init'), int) and set(gets) & set(fn.subtree(v['init']))}
+            holders |= {E.carrier_of(fn, n['lhs'])[1] for n in nodes if n.get('k') == 'assign' and n.get('op') == '='
+                        and set(gets) & set(fn.subtree(n['rhs'])) and (E.carrier_of(fn, n['lhs']) or ('',))[0] == 'var'}
+            rets = [n for n in nodes if n.get('k') == 'return' and 'sub' in n
+                    and (set(gets) & set(fn.subtree(n['sub'])) or ((scn(fn, n['sub']) or {}).get('k') == 'var' and scn(fn, n['sub']).get('d') in holders))]
             ok = ok and len(rets) >= 1
-            ok = ok and must_pass(fn, fn.entry, [d['id'] for d in dc]) is None
+            ok = ok and must_pass(fn, fn.entry, dc) is None
         R.check(ok, 'G3-close-gets-future', key, fn.site,
                 'Writer::close must run do_close() and then return m_write_future.get() whenever the future is valid (the only place the '
                 'write thread\'s exception and the file size reach the caller): %s' % describe_path(fn, w))
@@ -622,20 +792,26 @@ def writer_rules(fb, R):
             R.bad('G4-do-close-end-of-data-once', key + '#lambda', fn.site, 'do_close must run one closing operation through ensure_cleanup')
             continue
         g = lam
-        eod = [n for n in g.calls('osmium::io::detail::add_end_of_data_to_queue')]
-        wend = [n for n in g.all_nodes() if n.get('k') == 'call' and n.get('q') == OUTPUT_FORMAT + '::write_end']
-        dw = [n for n in g.calls() if n['q'] in H]
-        closed = [n['id'] for n in g.all_nodes() if n.get('k') == 'assign' and n.get('op') == '=' and (g.sn(n['rhs']) or {}).get('q', '').endswith('::closed')
-                  and (g.sn(n['lhs']) or {}).get('q') == status_q]
-        ok = len(eod) == 1 and len(wend) >= 1 and len(dw) >= 1
+        gn = list(g.all_nodes())
+        p_eod = _p_q('osmium::io::detail::add_end_of_data_to_queue')
+        p_wend = _p_q(OUTPUT_FORMAT + '::write_end')
+        p_dw = lambda f, n: n.get('k') == 'call' and n.get('q') in H
+        p_closed = lambda f, n: (n.get('k') == 'assign' and n.get('op') == '=' and (f.sn(n['rhs']) or {}).get('q', '').endswith('::closed')
+                                 and (f.sn(n['lhs']) or {}).get('q') == status_q)
+        eod = role_ids(fb, g, gn, p_eod)
+        closed = role_ids(fb, g, gn, p_closed)
+        ok = len(eod) == 1 and bool(role_ids(fb, g, gn, p_wend)) and bool(role_ids(fb, g, gn, p_dw))
         if ok:
             e = eod[0]
-            ok = must_pass(g, g.entry, [e['id']]) is None
-            ok = ok and path_search(g, e['id'], lambda x: x == e['id'], lambda x: False) is None
-            ok = ok and all(g.elem_dominates(x['id'], e['id']) for x in wend) and any(g.elem_dominates(d['id'], wend[0]['id']) for d in dw)
+            ok = must_pass(g, g.entry, [e]) is None
+            ok = ok and path_search(g, e, lambda x: x == e, lambda x: False) is None
+            ok = ok and _role_order(fb, g, p_wend, p_eod, gn) and _role_order(fb, g, p_dw, p_wend, gn)
             # nothing that could throw runs after the marker was pushed (the handler would push a second one)
-            after = path_search(g, e['id'], lambda x: not isinstance(x, tuple) and g.nodes[x].get('k') in ('call', 'construct', 'throw'), lambda x: False)
-            ok = ok and after is None
+            def nothing_after(f, i):
+                return path_search(f, i, lambda x: not isinstance(x, tuple) and f.nodes[x].get('k') in ('call', 'construct', 'throw'), lambda x: False) is None
+            ok = ok and nothing_after(g, e)
+            for hb_ in helper_bodies(fb, g, g.nodes[e]):
+                ok = ok and all(nothing_after(hb_, n['id']) for n in hb_.all_nodes() if p_eod(hb_, n))
             ok = ok and bool(closed) and must_pass(g, g.entry, closed) is None
         R.check(ok, 'G4-do-close-end-of-data-once', key + '#lambda', g.site,
                 'the closing operation must write the pending buffer, call write_end(), set status closed and push the end-of-data marker '
@@ -645,43 +821,44 @@ def writer_rules(fb, R):
 
     # ---- G5
     flag_fields = {f['q'] for f in rec.fields if f['tC'].startswith('std::atomic<bool>')}
-    fut_fields = {f['q'] for f in rec.fields if f['tC'].startswith('std::future<')}
     CFE = 'osmium::thread::check_for_exception'
-    for fn in fb.fns(WRITER + '::do_flush'):
-        polls = [n for n in fn.calls(CFE) if n.get('args') and (fn.root_var(n['args'][0]) or (None, None))[1] in fut_fields]
+    def reads_flag(f, c):
+        x = resolved(f, c)
+        return x is not None and x.get('k') == 'call' and x.get('rclsT', '').startswith('std::atomic<bool>') \
+            and (f.root_var(x.get('recv')) or (None, None))[1] in flag_fields
 
-        def reads_flag(c):
-            x = fn.sn(c)
-            return x is not None and x.get('k') == 'call' and x.get('rclsT', '').startswith('std::atomic<bool>') \
-                and (fn.root_var(x.get('recv')) or (None, None))[1] in flag_fields
-        ok = len(polls) >= 1 and all(sense and reads_flag(c) for p in polls[:1] for (c, sense, _b) in guards(fn, p['id']))
+    def flag_clear_edge(f):
+        return lambda b, idx, s: idx != false_edge_of(f, f.blocks[b], lambda c: reads_flag(f, c))
+    p_poll = lambda f, n: (n.get('k') == 'call' and n.get('q') == CFE and n.get('args')
+                           and (f.root_var(n['args'][0]) or (None, None))[1] in fut_fields)
+    for fn in fb.fns(WRITER + '::do_flush'):
+        polls = role_ids(fb, fn, list(fn.all_nodes()), p_poll, edge_ok=flag_clear_edge)
+        ok = bool(polls) and all(sense and reads_flag(fn, c) for p in polls[:1] for (c, sense, _b) in atom_guards(fn, p))
         # reached on every path on which the flag is set
         w = None
         if ok:
-            w = must_pass(fn, fn.entry, [p['id'] for p in polls],
-                          lambda b, idx, s: not (idx == 1 and reads_flag(E.effective_cond(fn, fn.blocks[b]))))
+            w = must_pass(fn, fn.entry, polls, flag_clear_edge(fn))
             ok = w is None
         R.check(ok, 'G5-flush-polls-future', fn.q, fn.site,
                 'do_flush must call check_for_exception(m_write_future) whenever the notification flag is set (otherwise a dead write '
                 'thread is noticed only at close()): %s' % describe_path(fn, w))
     if not fb.fns(WRITER + '::do_flush'):
         R.broken('Writer::do_flush not found')
-    if not fb.fns(CFE) and any(list(fn.calls(CFE)) for fn in fb.fns(WRITER + '::do_flush')):
+    if not fb.fns(CFE) and any(list(f.calls(CFE)) for f in wfns):
         R.broken('check_for_exception is called but has no body in the fact base')
     for fn in fb.fns(CFE):
         gets = [n for n in fn.all_nodes() if n.get('k') == 'call' and n.get('q') == 'std::future::get']
         ok = len(gets) == 1
         if ok:
-            for (c, sense, _b) in guards(fn, gets[0]['id']):
-                x = fn.sn(c)
+            for (c, sense, _b) in atom_guards(fn, gets[0]['id']):
                 names = {fn.nodes[y].get('q', '').rsplit('::', 1)[-1] for y in fn.subtree(c) if fn.nodes[y].get('k') == 'call'}
                 if not sense or not names or not names <= {'valid', 'wait_for', 'duration', '(ctor)', 'seconds'}:
                     ok = False
             # a ready, valid future is always collected
             def edge_ok(b, idx, s):
-                c = E.effective_cond(fn, fn.blocks[b])
-                names = {fn.nodes[y].get('q', '').rsplit('::', 1)[-1] for y in fn.subtree(c) if fn.nodes[y].get('k') == 'call'}
-                return not (idx == 1 and names & {'valid', 'wait_for'})
+                def atom(c):
+                    return bool({fn.nodes[y].get('q', '').rsplit('::', 1)[-1] for y in fn.subtree(c) if fn.nodes[y].get('k') == 'call'} & {'valid', 'wait_for'})
+                return idx != false_edge_of(fn, fn.blocks[b], atom)
             ok = ok and must_pass(fn, fn.entry, [gets[0]['id']], edge_ok) is None
         R.check(ok, 'G5-flush-polls-future', fn.q, fn.site,
                 'check_for_exception must call future.get() exactly when the future is valid and ready')
@@ -699,13 +876,13 @@ def _push_sites(fn):
 
 
 def _is_submit_push(fn, n):
-    a = scn(fn, n['args'][0]) if n.get('args') else None
+    a = resolved(fn, n['args'][0]) if n.get('args') else None
     return a is not None and a.get('k') == 'call' and a.get('q') == 'osmium::thread::Pool::submit'
 
 
 def _is_local_promise_push(fn, n):
     """queue.push(promise.get_future()) with a local promise (fulfilled by the pushing function itself)."""
-    a = scn(fn, n['args'][0]) if n.get('args') else None
+    a = resolved(fn, n['args'][0]) if n.get('args') else None
     if a is None or a.get('k') != 'call' or a.get('q') != 'std::promise::get_future':
         return False
     rv = fn.root_var(a.get('recv'))
@@ -764,10 +941,12 @@ def queue_rules(fb, R):
             R.broken('%s::write_buffer not found' % rec.q)
             continue
         for fn in wbs:
-            pushes = [n for n in _push_sites(fn) if _is_submit_push(fn, n)]
+            p_push = lambda f, n: (n.get('k') == 'call' and n.get('q') == 'osmium::thread::Queue::push' and n.get('rclsT') == FUTURE_STRING_QUEUE
+                                   and _is_submit_push(f, n))
+            pushes = role_ids(fb, fn, list(fn.all_nodes()), p_push)
             if pushes:
                 pd = fn.params[0]['d'] if fn.params else None
-                ok = must_pass(fn, fn.entry, [n['id'] for n in pushes]) is None and all(pd in vars_in(fn, n['id']) for n in pushes)
+                ok = must_pass(fn, fn.entry, pushes) is None and all(pd in vars_in_deep(fn, i) for i in pushes)
                 R.check(ok, 'F2-write-buffer-submits', fn.q, fn.site,
                         'write_buffer must submit an output block built from its buffer argument to the pool and queue the future on every path')
                 continue
@@ -777,7 +956,7 @@ def queue_rules(fb, R):
             ends = fb.fns(rec.q + '::write_end')
             ok = bool(pushers) and bool(ends)
             for g in ends:
-                ids = [n['id'] for n in g.calls() if n['q'] in pushers]
+                ids = role_ids(fb, g, list(g.all_nodes()), lambda f, n: n.get('k') == 'call' and n.get('q') in pushers)
                 ok = ok and bool(ids) and must_pass(g, g.entry, ids) is None
             R.check(ok, 'F2-write-buffer-submits', fn.q, fn.site,
                     '%s neither submits in write_buffer nor flushes its pending block in write_end on every path (the last block would be lost)' % rec.q)
@@ -849,7 +1028,7 @@ def _selftest_errdisc(fb, R):
     E.run_sites(R, fb, fns, 'E1-oserror-reaches-throw', 'E1-nothrow-explicit-discard', io_layer=lambda fn: True)
     # negative controls: the ok_* functions of the example must stay silent, every bad_* function must be reported
     wrong = [i.key for i in R.instances.values() if (not i.ok) != ('::bad_' in i.key)]
-    if wrong or R.broken_msgs or len(R.instances) < 17:
+    if wrong or R.broken_msgs or len(R.instances) < 21:
         raise AnalysisBroken('ERRDISC self-test: unexpected verdicts on selftest/positive/c08_errdisc.cpp: %s %s' % (wrong, R.broken_msgs))
 
 
